@@ -240,16 +240,14 @@ func decodeKeyByBitmapUint8(d *structDecoder, buf []byte, cursor int64) (int64, 
 			}
 			keyIdx := 0
 			bitmap := d.keyBitmapUint8
-			start := cursor
 			for {
 				c := char(b, cursor)
 				switch c {
 				case '"':
 					fieldSetIndex := bits.TrailingZeros8(curBit)
 					field := d.sortedFieldSets[fieldSetIndex]
-					keyLen := cursor - start
 					cursor++
-					if keyLen < field.keyLen {
+					if int64(keyIdx) < field.keyLen { // decoded length: an escaped key is not longer than its text
 						// early match
 						return cursor, nil, nil
 					}
@@ -306,16 +304,14 @@ func decodeKeyByBitmapUint16(d *structDecoder, buf []byte, cursor int64) (int64,
 			}
 			keyIdx := 0
 			bitmap := d.keyBitmapUint16
-			start := cursor
 			for {
 				c := char(b, cursor)
 				switch c {
 				case '"':
 					fieldSetIndex := bits.TrailingZeros16(curBit)
 					field := d.sortedFieldSets[fieldSetIndex]
-					keyLen := cursor - start
 					cursor++
-					if keyLen < field.keyLen {
+					if int64(keyIdx) < field.keyLen { // decoded length: an escaped key is not longer than its text
 						// early match
 						return cursor, nil, nil
 					}
@@ -429,10 +425,9 @@ func decodeKeyByBitmapUint8Stream(d *structDecoder, s *Stream) (*structFieldSet,
 				case '"':
 					fieldSetIndex := bits.TrailingZeros8(curBit)
 					field := d.sortedFieldSets[fieldSetIndex]
-					keyLen := cursor - start
 					cursor++
 					s.cursor = cursor
-					if keyLen < field.keyLen {
+					if int64(keyIdx) < field.keyLen { // decoded length: an escaped key is not longer than its text
 						// early match
 						return nil, field.key, nil
 					}
@@ -516,10 +511,9 @@ func decodeKeyByBitmapUint16Stream(d *structDecoder, s *Stream) (*structFieldSet
 				case '"':
 					fieldSetIndex := bits.TrailingZeros16(curBit)
 					field := d.sortedFieldSets[fieldSetIndex]
-					keyLen := cursor - start
 					cursor++
 					s.cursor = cursor
-					if keyLen < field.keyLen {
+					if int64(keyIdx) < field.keyLen { // decoded length: an escaped key is not longer than its text
 						// early match
 						return nil, field.key, nil
 					}
